@@ -764,3 +764,29 @@ func (h *MayHeld) At(at ssa.Instruction) map[string]bool {
 	}
 	return cur
 }
+
+// LenSign decodes a fact comparing len(x) with a constant into what it says
+// about the length: zero (len(x) == 0) or nonzero (len(x) > 0). It knows that a
+// length is never negative, so `len(x) > 0`, `len(x) != 0`, `!(len(x) == 0)`,
+// `len(x) >= 1` all mean nonzero, and the complements mean zero.
+func LenSign(f Fact) (x ssa.Value, zero, nonzero bool) {
+	r, ok := AsRel(f)
+	if !ok {
+		return nil, false, false
+	}
+	if _, isLen := LenArg(r.X); !isLen {
+		r = r.Flip()
+	}
+	arg, isLen := LenArg(r.X)
+	n, isC := ConstInt(r.Y)
+	if !isLen || !isC {
+		return nil, false, false
+	}
+	switch {
+	case r.Op == token.GTR && n == 0, r.Op == token.NEQ && n == 0, r.Op == token.GEQ && n == 1:
+		return arg, false, true
+	case r.Op == token.EQL && n == 0, r.Op == token.LEQ && n == 0, r.Op == token.LSS && n == 1:
+		return arg, true, false
+	}
+	return nil, false, false
+}
